@@ -9,20 +9,81 @@ def hook_commits():
 
 CHECKS = {
  "C01": dict(
-   technique="runtime monitoring: metamorphic oracle (blank-stripped character sequence, case changes located with an independent reference scanner) over generated, mutated and hostile inputs x sampled configurations",
-   text="Exploration. Every format call of the real library (make_formatter built from the working tree) on inputs from all generators is checked by an oracle that does not use pasfmt's lexer; held on K executions, never 'verified'.",
-   note="Trusted: the harness' reference scanner for locating keyword-capable words and directive names on the input; generators' reach (listed in evidence).",
-   ref="DESIGN.md 2/C01"),
+   technique="runtime monitoring: metamorphic oracle (blank-stripped character sequence; case changes located with an independent reference scanner) over generated, mutated and hostile inputs x sampled configurations",
+   text="Exploration. Every format call of the real library on inputs from all generators is checked by an oracle that does not use pasfmt's lexer; held on K executions, never 'verified'.",
+   note="Trusted: the harness' reference scanner for locating keyword-capable words and directive names on the input; generators' reach (listed in evidence)."),
+ "C02": dict(
+   technique="runtime monitoring: re-scan oracle with an independent reference scanner (plus pasfmt's own lexer as second opinion) under the documented normalisation relation, on grammar programs whose tokens are known by construction, decorated layouts, re-layouts, seeds and a token-pair sweep",
+   text="Exploration over well-formed programs x layouts x configurations; the oracle compares scans of input and output token by token.",
+   note="Trusted: reference scanner; 'well-formed' = derivable from the harness grammar or a data-test seed that scans cleanly."),
  "C03": dict(
-   technique="runtime monitoring: fixpoint oracle F(F(x))==F(x)==F^3 on well-formed generated programs and data-test seeds, widths chosen adversarially from observed line lengths; hook events classify wrapper fallbacks and reflow cache reuse",
-   text="Exploration. Byte comparison of repeated executions of the real formatter under sampled configurations; known-finding class keyed on the ChildCacheHitDuringReflow hook event.",
-   note="Trusted: 'well-formed' means derivable from the harness grammar generator or a data-test seed.",
-   ref="DESIGN.md 2/C03"),
+   technique="runtime monitoring: fixpoint oracle F(F(x))==F(x)==F^3 with adversarial widths and perturbed literals; hook events (WrapFallback, Reflow, ChildCacheHitDuringReflow) give the signatures of known findings",
+   text="Exploration. Byte comparison of repeated executions of the real formatter under sampled configurations.",
+   note="Trusted: 'well-formed' as in C02; known-finding classes listed in known_findings.txt blind the check to exactly those signatures."),
  "C04": dict(
-   technique="runtime monitoring: crash/abort observation in supervised worker processes, logical step-budget watchdog through hooks in lexer/parser/wrapper loops, CPU-time watchdog with solo confirmation, growth monitor on scaling families; exhaustive enumeration of short token sequences",
-   text="Exploration, with exhaustive sub-spaces (all sequences up to length 2 quick / 3 thorough over the listed alphabet, length 4 over the opener sub-alphabet). A call that panics, aborts the process, exceeds 2000*(n+16)^2 logical steps or is not finished after a confirmed 150 s is a violation.",
-   note="Trusted: step hooks cover the loops listed in DESIGN.md; loops without a hook are covered only by the CPU-time watchdog. Release profile decides.",
-   ref="DESIGN.md 2/C04"),
+   technique="runtime monitoring: crash/abort observation in supervised worker processes (2 MiB stacks like the binary's worker threads), logical step-budget watchdog through hooks in lexer/parser/wrapper loops, CPU-time watchdog with solo confirmation, growth monitor (steps and thread CPU time) on scaling families; exhaustive enumeration of short token sequences",
+   text="Exploration with exhaustive sub-spaces (all sequences up to length 2 quick / 3 thorough over the listed alphabet, length 4 over the opener sub-alphabet). Panic, process death, > 2000*(n+16)^2 logical steps or a confirmed 150 s timeout is a violation.",
+   note="Trusted: step hooks cover the loops listed in DESIGN.md; loops without a hook are covered only by the CPU-time watchdog. Release profile decides."),
+ "C05": dict(
+   technique="runtime monitoring: structure oracle over generator-known statement/member/opener/closer tokens located in the output by non-blank ordinal; relative indentation rule checked per block; hook events and generator context give known-finding signatures",
+   text="Exploration over grammar programs x layouts x widths x begin_style.",
+   note="Trusted: the generator's role annotations (what is a statement of which block); C01 (ordinals) is checked separately."),
+ "C06": dict(
+   technique="runtime monitoring: metamorphic oracle F(x)==F(relayout(x)) over admissible re-layouts (one line, token per line, random gaps), failing pairs minimised to the responsible gaps by delta debugging",
+   text="Exploration over well-formed programs x 2-4 re-layouts x configurations.",
+   note="Trusted: admissibility of re-layouts is by construction (comment-touching gaps, blank-line runs, verbatim material untouched); gluing rules of the layout are conservative."),
+ "C07": dict(
+   technique="runtime monitoring: region oracle - bytes of generator-placed pasfmt off/on regions and asm bodies must reappear unchanged at the place given by the non-blank ordinal; canonical-whitespace oracle outside regions; toggle look-alikes",
+   text="Exploration over grammar programs with 1-3 regions at arbitrary token boundaries, all spellings, x configurations.",
+   note="Trusted: reference toggle recogniser written from the property text; reference scanner for the outside-whitespace check."),
+ "C08": dict(
+   technique="runtime monitoring: whitespace oracle on the gaps between reference-scanner tokens of every output (all generators x full configuration space); hook events and configuration predicates give known-finding signatures",
+   text="Exploration; universal clauses on all inputs, end-of-file clause on well-formed inputs.",
+   note="Trusted: reference scanner delimits tokens, verbatim regions and asm bodies in the output."),
+ "C09": dict(
+   technique="runtime monitoring: terminator oracle on output gaps and re-indented literals, plus two metamorphic relations (lf vs crlf configuration; LF vs CRLF input)",
+   text="Exploration over all generators x input endings x configurations.",
+   note="Trusted: reference scanner; verbatim line-spanning tokens are exempt as the property says."),
+ "C10": dict(
+   technique="runtime monitoring: metamorphic oracle across four executions per input (tabs, spaces, and two probe configurations that reveal levels and continuations) with unconstrained width",
+   text="Exploration over well-formed inputs x tab_width x continuation_indents incl. the u8 boundary.",
+   note="Inputs with line-spanning tokens are skipped (interior lines are token text); literal re-indentation per configuration is covered by C12."),
+ "C11": dict(
+   technique="runtime monitoring: metamorphic relations between executions at two widths chosen from observed line lengths; a rate monitor bounds the known search-heuristic finding",
+   text="Exploration over well-formed inputs x width pairs x other settings.",
+   note="Width is measured as the wrapper measures it (UTF-8 bytes, a tab counts one)."),
+ "C12": dict(
+   technique="runtime monitoring: value oracle on literals whose text and value are known by construction (literal product x carrier programs x configurations), located in the output by non-blank ordinal",
+   text="Exploration over the literal product x 19 carriers x configurations.",
+   note="Trusted: generator-computed values; whitespace-only lines that are not a prefix of the closing indentation are not generated (the property text is ambiguous about them)."),
+ "C13": dict(
+   technique="runtime monitoring: structural oracle on DelphiLexer::lex output, boundaries known by construction for the word-length x alignment x delimiter product, direct differential of the vectorised and portable identifier routines (hook), whole-lexer differential with the portable routine forced, reference-scanner comparison of boundaries/kinds/keyword recognition; Miri and ASan passes in the thorough tier",
+   text="Exploration with an exhaustive (length, alignment) x delimiter x word-class product in the thorough tier.",
+   note="Trusted: reference scanner for the comparison part; construction for the boundary part."),
+ "C14": dict(
+   technique="runtime monitoring: invariant walk over the parse result at the quiescent point after parsing (public API), on all generators; parent/end-of-file clauses on well-formed programs; pass-count hook",
+   text="Exploration.",
+   note="Trusted: nothing beyond the public parse result; 'well-formed' as in C02."),
+ "C15": dict(
+   technique="runtime monitoring: differential execution with/without cursors and a token-relative position oracle using pasfmt's own tokenisation of the input and non-blank ordinals",
+   text="Exploration over all generators x cursor lists x configurations.",
+   note="The unchanged-token clause is checked only when the output has the same non-blank characters as the input."),
+ "C16": dict(
+   technique="runtime monitoring of the real binary: byte/mtime/inode observation of files around invocations in the three modes and all path forms; reference = stdin->stdout of the same binary",
+   text="Exploration over contents (result shorter/longer/equal/empty) x modes x path forms x configurations, plus failing files (unreadable as user nobody, undecodable, missing).",
+   note="Trusted: the stdin->stdout path of the binary as reference, as the property defines it."),
+ "C17": dict(
+   technique="runtime monitoring of the real binary: byte-level oracle BOM + encode(F(decode(bytes))) with the library call as F and an independent codec, x 25 encodings x BOM kinds x file/stdin; malformed inputs must be rejected untouched",
+   text="Exploration.",
+   note="Trusted: encoding_rs as codec for legacy encodings; Rust std for UTF-8/UTF-16."),
+ "C18": dict(
+   technique="runtime monitoring of the real binary: batch vs one-at-a-time byte comparison under varied thread counts with hook-injected per-file delays; schedule trace hook (thread, order, reused buffer capacity) measures distinct schedules and buffer-reuse events; TSan build in the thorough tier",
+   text="Exploration (schedule sampling with perturbation, not enumeration).",
+   note="Trusted: the single-file run of the same binary as reference."),
+ "C19": dict(
+   technique="runtime monitoring of the real binary from nested working directories: a 20-line reference resolver predicts the effective configuration; metamorphic oracle 'however specified => same bytes'; rejection checks on exit status and untouched files",
+   text="Exploration over depths 0-6, several pasfmt.toml, --config-file, -C splits, invalid settings.",
+   note="Trusted: the reference resolver written from the property text."),
 }
 
 NOT_YET = {}
@@ -42,7 +103,7 @@ def main():
                 "evidence_file": f"/verif/evidence/{pid}.json",
                 "replay_cmd_template": f"./check {pid} --replay {{path}}",
                 "engine": "pfmon",
-                "level_claimed": {"category": "exploration", "text": c["text"], "design_ref": c["ref"]},
+                "level_claimed": {"category": "exploration", "text": c["text"], "design_ref": "DESIGN.md section 2, " + pid},
                 "level_note": c["note"],
                 "technique": c["technique"],
             })
